@@ -536,6 +536,7 @@ def cargo_metadata_check(ctx, manifests, counters):
 
 # ---------------------------------------------------------------- run
 def run(ctx):
+    common.build_harness()          # cli_build calls the harness CLI directly
     cfg = "MC_Manifest_quick" if ctx.quick else "MC_Manifest"
     with ctx.timed("tlc"):
         res = common.tlc(ctx, "MC_Manifest", cfg=cfg, workers=8, timeout=1500, quiet=True)
@@ -725,6 +726,7 @@ def replay(ctx, path):
     if not files:
         print(json.dumps(case, indent=1)[:4000])
         return
+    common.build_harness()
     d = os.path.join(ctx.work, "replay_run")
     shutil.rmtree(d, ignore_errors=True)
     o = common.replay_batch([{"op": "gen_project", "dir": d, "files": files, "entry": entry, "out": os.path.join(d, "out")}])[0]
